@@ -206,6 +206,43 @@ let frame_stream args =
       String.concat "," (List.map show_frame frs @ [ tail ])
   | _ -> "BAD-ARGS"
 
+(* dgram_hop <mtu> <ids: shared:<start> | own | i,j,..> <writes sid/addr/body;...> <sched k.i,k.i,...> *)
+let rec nat_of_int i = if i <= 0 then O else S (nat_of_int (i - 1))
+let dgram_hop ovf args =
+  match args with
+  | [ mtu; ids; writes; sched ] -> (
+      let ws =
+        List.map
+          (fun w -> match split_on '/' w with
+             | [ sid; addr; body ] -> (n_of_int (int_of_string sid), parse_frame "0" addr (if body = "-" then "" else body))
+             | _ -> failwith "bad write")
+          (split_on ';' writes)
+      in
+      let idl =
+        if String.length ids > 7 && String.sub ids 0 7 = "shared:" then x_ids_of true (n_of_int (int_of_string (String.sub ids 7 (String.length ids - 7)))) ws
+        else if ids = "own" then x_ids_of false N0 ws
+        else List.map (fun i -> n_of_int (int_of_string i)) (split_on ',' ids)
+      in
+      let sc =
+        List.map
+          (fun e -> match split_on '.' e with [ k; i ] -> (nat_of_int (int_of_string k), nat_of_int (int_of_string i)) | _ -> failwith "bad sched")
+          (if sched = "-" then [] else split_on ',' sched)
+      in
+      match x_dgram_hop ovf (n_of_int (int_of_string mtu)) idl ws sc with
+      | Ok outs ->
+          "ids=" ^ String.concat "," (List.map (fun i -> string_of_int (int_of_n i)) idl) ^ " " ^
+          String.concat ","
+            (List.map
+               (function
+                 | Ok None -> "-"
+                 | Ok (Some f) -> show_frame f
+                 | Err _ -> "ERR"
+                 | Panic _ -> raise Model_panic)
+               outs)
+      | Err _ -> "SEND-ERR"
+      | Panic _ -> raise Model_panic)
+  | _ -> "BAD-ARGS"
+
 let udp_decode args =
   match args with
   | [ b ] -> (
@@ -731,6 +768,7 @@ let run_line ovf line =
       try
         match op with
         | "frag_seq" -> frag_seq ovf args
+        | "dgram_hop" -> dgram_hop ovf args
         | "frag_make" -> frag_make ovf args
         | "frag_rt" -> frag_rt ovf args
         | "dispatch" -> dispatch args
